@@ -20,6 +20,8 @@ Modelled (default template set, `gapic/templates/%namespace/%name_%version/%sub/
   * `resolveRel`: Python's resolution of `from .a.b import x` in a file of the package to a file name;
   * `svcInitExports` / `pkgInitWants`: the client names `services/<svc>/__init__.py` binds and the names the
     package `__init__.py` imports from it;
+  * `moduleCollisions` / `protoNames` = the module part of `gapic/schema/api.py: Proto.names` (which imported module names get an
+    alias: the ones used from two distinct proto packages anywhere in the file, or reserved);
   * `emptyContent` = `gapic/utils/code.py: empty` (no line has a first non-blank character other than `#`) and
     `keepFile` = the test at the end of `Generator._get_file`.
 
@@ -177,6 +179,35 @@ def pkgInitWants (o : Opts) : List ClientName :=
 def ClientName.definedIn : ClientName → SMod
   | .sync => .client
   | .async => .asyncClient
+
+/-! ### module-name collisions of one proto file (`gapic/schema/api.py: Proto.names`, the part about imported modules)
+
+`Proto.names` is the collision set bound into every address of the file (`_ProtoBuilder.proto` → `with_context`);
+`Address.module_alias` renames a module iff its name is in that set (or reserved).  The module part of the set:
+a table module name → set of proto packages is accumulated over the `recursive_field_types` of ALL messages of the
+file, and THEN every module name with more than one package (or a reserved name) is a collision. -/
+
+/-- one type reference of a message: the module and the proto package of a type in `message.recursive_field_types` -/
+structure Ref where
+  module : Str
+  package : Str
+deriving Repr, DecidableEq
+
+/-- `len(modules[m]) > 1`: within `refs` the module name `m` is used from two distinct packages -/
+def twoPackages (refs : List Ref) (m : Str) : Bool :=
+  refs.any fun a => refs.any fun b => a.module = m && b.module = m && a.package != b.package
+
+/-- the module names `Proto.names` adds: union of the references of all messages first, then the count per name -/
+def moduleCollisions (reserved : List Str) (msgs : List (List Ref)) : List Str :=
+  (msgs.flatten.map (·.module)).filter fun m => twoPackages msgs.flatten m || reserved.contains m
+
+/-- `Proto.names` = names of enums, messages and fields (`plain`) plus the module collisions -/
+def protoNames (plain reserved : List Str) (msgs : List (List Ref)) : List Str :=
+  plain ++ moduleCollisions reserved msgs
+
+/-- NOT the code: the table rebuilt for every message (what a "single pass" rewrite computes) -/
+def moduleCollisionsPerMessage (reserved : List Str) (msgs : List (List Ref)) : List Str :=
+  msgs.flatMap fun refs => (refs.map (·.module)).filter fun m => twoPackages refs m || reserved.contains m
 
 /-! ### the empty-module rule (`gapic/utils/code.py: empty`, `Generator._get_file`) -/
 
